@@ -382,9 +382,24 @@ def iter_base(it):
 
 def anon_src(node, keep=("self", "np", "pd")):
     """Source text of an expression with every local name replaced by `?` (construct keys must not depend on local names)."""
-    import copy
-    n2 = copy.deepcopy(node)
+    n2 = clone(node)
     for x in ast.walk(n2):
         if isinstance(x, ast.Name) and x.id not in keep:
             x.id = "?"
     return src(n2)
+
+
+def clone(node):
+    """Copy of a syntax tree that does not follow the `_parent` back-pointers (copy.deepcopy would copy the whole module)."""
+    if isinstance(node, list):
+        return [clone(x) for x in node]
+    if not isinstance(node, ast.AST):
+        return node
+    new = type(node)()
+    for f in node._fields:
+        if hasattr(node, f):
+            setattr(new, f, clone(getattr(node, f)))
+    for a in ("lineno", "col_offset", "end_lineno", "end_col_offset"):
+        if hasattr(node, a):
+            setattr(new, a, getattr(node, a))
+    return new
